@@ -3,7 +3,7 @@
    SMP/FeasSound.v (the boolean clause), SMP/FeasStep.v (state.step, middleware, reachable states). *)
 From Coq Require Import List ZArith Bool.
 From JSL Require Import Base.Res SM.Types SM.Util SM.Handler SM.Step SM.Middleware SM.Inv SM.Example
-  SMP.Clock SMP.ClockMain SMP.FeasView SMP.Feasible SMP.FeasSound SMP.FeasStep.
+  SMP.Clock SMP.ClockMain SMP.FeasView SMP.Feasible SMP.FeasSound SMP.FeasStep Dsl.Doc Dsl.DocP.
 Import ListNotations.
 
 (* feasible_b (SM/Inv.v), the clause the monitors evaluate on every state of the implementation: per job
@@ -77,6 +77,23 @@ Proof.
   - split; [rewrite feasible_set_now; apply FE_feasible; auto|]. intros tr y Hin. apply FE_feasible. apply (L _ _ Hin).
 Qed.
 Print Assumptions C01_step_partial.
+
+(* End to end on the models: for EVERY document the compiler model accepts (non-negative configured times),
+   every state the environment model reaches from the compiled initial state is a feasible schedule - the
+   hypotheses on the initial state are discharged by C17_initial_state_meets_hypotheses. *)
+Theorem C01_from_document_partial :
+  forall (sigma : oracle) (d : ddoc) (early : bool) (i : inst) (x0 : state) (L : labels)
+         (fuel : nat) (joker0 : Z) (ta : bool) (r : result) (m : mw),
+    compile d early = Ok (i, x0, L) -> inst_nonneg_b i = true ->
+    reachS sigma i fuel x0 joker0 ta r m -> feasible_b i (r_x r) = true.
+Proof.
+  intros sigma d early i x0 L fuel joker0 ta r m Hc Hnn Hr. unfold compile in Hc.
+  destruct (compile_inst d early) as [[i0 L0]|] eqn:E; simpl in Hc; [|discriminate].
+  destruct (init_state d i0 L0) as [x1|] eqn:E2; simpl in Hc; [|discriminate].
+  inversion Hc; subst. destruct (init_state_fresh _ _ _ _ E2) as [F [C _]].
+  eapply reachS_feasible; eauto.
+Qed.
+Print Assumptions C01_from_document_partial.
 
 (* the executable side condition implies the one in the theorems *)
 Theorem C01_sides_reflect : forall lg, sides_b lg = true -> sides lg.
